@@ -581,6 +581,7 @@ def run(fx, chk, tier):
                             "%s.%s is not initialised from stream data by read_box (%s)" % (s, nm, "set to a constant" if src == "const" else "no source found"), rsite)
     # ---------------- S6: bytes taken from the stream reach the decoded value without content-changing edits
     s6(fx, chk)
+    s8(fx, chk, ms)
     # ---------------- S7: bit-packed words (instances owned by C05)
     from packs_common import compose
     chk.rule("S7", "bit-packed words are unpacked by the decoder exactly as the encoder packs them: both sides route every field to the bit positions of the layout (C05 R3 instances)")
@@ -595,6 +596,110 @@ def run(fx, chk, tier):
         "Layouts of write_box, read_box and box_size() of %d box types are extracted from HIR and compared in %d shape cells (every consistent assignment of the version/flag/presence conditions), "
         "which covers the whole shape space that the statement quantifies over; field values are not executed. Not decided: value equality beyond whole-field routing, bit packing (C05/C16)." % (len(ms), ncells),
     )
+
+
+DROPS = ("clear", "truncate", "pop", "remove", "swap_remove", "drain", "retain", "retain_mut", "dedup", "dedup_by", "dedup_by_key", "sort", "sort_unstable",
+         "sort_by", "sort_by_key", "reverse", "split_off", "resize", "swap", "rotate_left", "rotate_right", "fill", "take")
+FILLS = ("push", "insert", "extend", "extend_from_slice", "push_back")
+
+
+def s8(fx, chk, ms):
+    """decoded values are single-assignment from the stream: a local that a decoder binds directly to a stream read, or a
+    collection it fills with values read in a loop, is what the struct literal receives.  Overwriting such a local with a value
+    that does not come from a read, or dropping / reordering elements of the collection afterwards, makes the decoded struct
+    differ from the layout the encoder writes for it (decode is no longer the inverse of encode on that shape)."""
+    chk.rule("S8", "a value a decoder has taken from the stream is not rewritten before it reaches the struct (no non-read assignment to a read-bound local, no dropping/reordering of a collection filled from reads, no shadowing by a non-read value)")
+    from packs_common import IO_TRAITS, io_fallible_set
+    iof_ = io_fallible_set(fx, callgraph(fx))
+
+    def is_io(c):
+        return c.get("trait") in IO_TRAITS or (c.get("resolved") or c.get("fn")) in iof_
+
+    def has_io(n):
+        return any(x.get("k") in ("call", "mcall") and is_io(x) for x, _ in hirq.walk(n))
+
+    def lid_of(n):
+        n = hirq.strip_wrappers(n)
+        return n.get("lid") if n.get("k") == "path" and n.get("res") == "local" else None
+    nloc = 0
+    for ty, m in sorted(ms.items()):
+        if m.fr is None:
+            continue
+        root = hirq.layout_root(m.fr)
+        if root is None:
+            continue
+        order = [n for n, _ in hirq.walk(root)]
+        pos = {id(n): i for i, n in enumerate(order)}
+        direct = {}      # lid -> name: `let x = <read>?`
+        readish = set()  # lids bound to any expression that contains a stream read
+        names = {}
+        for n in order:
+            if n.get("k") == "let" and n.get("init") is not None:
+                init = hirq.strip_wrappers(n["init"])
+                while init.get("k") in ("try", "cast") and isinstance(init.get("e"), dict):
+                    init = hirq.strip_wrappers(init["e"])
+                for nm, lid in hirq.pat_bindings(n["pat"]):
+                    if lid is None:
+                        continue
+                    names.setdefault(nm, []).append((lid, pos[id(n)], init.get("k") in ("call", "mcall") and is_io(init)))
+                    if init.get("k") in ("call", "mcall") and is_io(init):
+                        direct[lid] = nm
+                    if has_io(n["init"]):
+                        readish.add(lid)
+        fills = {}       # lid -> first position of a fill with stream data
+        for n in order:
+            if n.get("k") == "mcall" and n.get("m") in FILLS and has_io_or_direct(n, has_io, readish, lid_of):
+                l = lid_of(n["recv"])
+                if l is not None:
+                    fills.setdefault(l, pos[id(n)])
+        nloc += len(direct) + len(fills)
+        site = site_of(m.fr)
+        for n in order:
+            k = n.get("k")
+            if k in ("assign", "assignop"):
+                l = lid_of(n["l"])
+                if l is None or hirq.strip_wrappers(n["l"]).get("k") != "path":
+                    continue
+                if l in direct and not has_io(n["r"]):
+                    chk.bad("S8", "%s|%s|overwritten" % (m.s, direct[l]), "`%s` was read from the stream and is then overwritten with a value that is not a read: the decoded struct no longer mirrors the bytes" % direct[l], site_of(m.fr, n.get("line")))
+                elif l in fills and k == "assign" and fills[l] < pos[id(n)] and not has_io(n["r"]):
+                    chk.bad("S8", "%s|%s|replaced" % (m.s, _name_of(names, l)), "collection `%s` was filled from the stream and is then replaced" % _name_of(names, l), site_of(m.fr, n.get("line")))
+            elif k == "mcall" and n.get("m") in DROPS:
+                l = lid_of(n["recv"])
+                if l in fills and fills[l] < pos[id(n)]:
+                    chk.bad("S8", "%s|%s|%s" % (m.s, _name_of(names, l), n.get("m")), "collection `%s` was filled from the stream and is then edited with %s()" % (_name_of(names, l), n.get("m")), site_of(m.fr, n.get("line")))
+        # shadowing: a later `let` of the same name whose value is not a read and does not mention the earlier binding's data only through a cast
+        for nm, bs in names.items():
+            for i, (lid, p_, isread) in enumerate(bs):
+                if i == 0 or isread:
+                    continue
+                prev = [b for b in bs[:i] if b[0] in direct or b[0] in fills]
+                if prev and _scope_overlaps(order, pos, prev[-1], (lid, p_)):
+                    chk.bad("S8", "%s|%s|shadowed" % (m.s, nm), "`%s` taken from the stream is shadowed by a binding that is not a read" % nm, site)
+        chk.ok("S8", m.s, "%d read-bound locals, %d collections filled from reads: none rewritten" % (len(direct), len(fills)), site)
+    chk.floor("S8", "read-bound locals and collections in decoders", nloc, 200)
+
+
+def has_io_or_direct(n, has_io, direct, lid_of):
+    if has_io(n):
+        return True
+    for a in n.get("args", []):
+        for x, _ in hirq.walk(a):
+            if x.get("k") == "path" and x.get("res") == "local" and x.get("lid") in direct:
+                return True
+    return False
+
+
+def _name_of(names, lid):
+    for nm, bs in names.items():
+        if any(b[0] == lid for b in bs):
+            return nm
+    return "?"
+
+
+def _scope_overlaps(order, pos, prev, cur):
+    """conservative: a shadowing `let` counts only when it comes later in the same function body (positions are pre-order)"""
+    return cur[1] > prev[1]
 
 
 def c04_flat_roles(toks):
